@@ -547,6 +547,11 @@ func init() {
 					} else {
 						pn.Params[0].Vals[i] = "bad value*"
 						what = "bad-input (invalid output path)"
+						if c.Tape.Choose(simrt.StFault, 2, 0) == 1 {
+							// the invalid character in a directory component of the path
+							pn.Params[0].Vals[i] = "k=v/ok"
+							what = "bad-input (invalid character in a directory of the output path)"
+						}
 						c.Fault("bad-input-invalid-path")
 					}
 					if victim == nil {
